@@ -63,10 +63,10 @@ pub fn sample_covariance_online(x: &[f64], y: &[f64]) -> f64 {
         let dy = j - meany;
         meanx += dx / n;
         meany += dy / n;
-        c += dx * dy;
+        c += dx * (j - meany);
     }
 
-    c / n
+    c / (n - 1.)
 }
 
 #[cfg(test)]
